@@ -52,6 +52,9 @@ def notmember_ok(facts, listname, elem_pred):
 
 
 def track(k):
+    k0 = peel(k, unwraps=False)
+    if isinstance(k0, tuple) and k0[0] == 'call' and not k0[1].startswith(('std::', 'core::', 'pnet')):
+        return True     # boolean helper of the crate: expanded through its own path facts
     s = short(k)
     return 'contains' in s or 'self_ip_list' in s or 'remote_ip_deny_list' in s or 'get_next_header' in s or 'get_next_level_protocol' in s
 
@@ -121,7 +124,10 @@ def run(ctx):
             return False
         return const_val(e[2]) == n
     for l, d in arrs.items():
-        name = ga.locals[l]['name']
+        lead = [const_val(d.get(i)) for i in (0, 1, 2)]
+        name = 'eth_ma' if lead[:1] == [0x01] else ('eth_snma' if lead[:1] == [0x33] else '?')
+        if not re.search(r'^\[u8; 6_usize\]$', ga.locals[l]['ty']):
+            continue
         if name == 'eth_ma':
             ok = [const_val(d.get(i)) for i in (0, 1, 2)] == [0x01, 0x00, 0x5e] and octet(d.get(3), 1, 0x7f) and octet(d.get(4), 2) and octet(d.get(5), 3) and set(d) == set(range(6))
             rep.check(r1b, ok, 'ipv4-multicast-mac', 'eth_ma = %s' % [short(d.get(i)) for i in range(6)], '%s:%d' % (ga.file, ga.line))
@@ -195,12 +201,11 @@ def run(ctx):
         # flag 'nd' = the ND-target substitution block was passed
         nd_blocks = set()
         if var == 'V6':
-            for bi, b in enumerate(f.blocks):
-                for i, s in enumerate(b['stmts']):
-                    if not s['lhs']['p'] and f.locals[s['lhs']['l']]['name'] == 'dst' and not b['cleanup']:
-                        val = peel(f.rvalue(s['rv'], (bi, i)))
-                        if not req_getter('get_destination')(val):
-                            nd_blocks.add(bi)
+            ssb = f.calls(r"::MutableIpv6Packet::<'a>::set_source$")
+            srcvar = var_feeding(f, ssb[0][0], 1) if len(ssb) == 1 else None
+            for bi, i, val in (defs_of_local(f, srcvar) if srcvar is not None else []):
+                if not req_getter('get_destination')(peel(val)):
+                    nd_blocks.add(bi)
 
         def on_edge_flags(bi, s, efs, flags):
             if s in nd_blocks:
@@ -212,11 +217,11 @@ def run(ctx):
         l4calls = [(b, (t['resolved'] or [''])[0]) for b, t in f.calls() if (t['resolved'] or [''])[0] in L4]
         for b, callee in l4calls:
             sts = states.get(b, set())
-            bad = [st for st in sts if not notmember_ok(st[1], 'remote_ip_deny_list', src_pred)]
+            bad = [st for st in sts if not all(notmember_ok(a_, 'remote_ip_deny_list', src_pred) for a_ in helper_alternatives(F, st[1]))]
             rep.check(r3, bool(sts) and not bad, '%s:before:%s' % (fid, callee), '%d path states reach the call; %d without the deny-list test on the source address' % (len(sts), len(bad)), f.loc(b))
         for b in some_points(f):
             sts = states.get(b, set())
-            bad = [st for st in sts if not notmember_ok(st[1], 'remote_ip_deny_list', src_pred)]
+            bad = [st for st in sts if not all(notmember_ok(a_, 'remote_ip_deny_list', src_pred) for a_ in helper_alternatives(F, st[1]))]
             rep.check(r3, bool(sts) and not bad, '%s:before-reply' % fid, '%d path states reach the reply; %d without the deny-list test' % (len(sts), len(bad)), f.loc(b))
         # R4: set_source
         for b, t in f.calls(r"::MutableIpv[46]Packet::<'a>::set_source$"):
@@ -227,7 +232,7 @@ def run(ctx):
             for (flags, facts) in sts:
                 if 'nd' in flags:
                     continue        # the value is the ND target returned by icmpv6::repl (summary checked below)
-                if not member_ok(facts, 'self_ip_list', dst_pred):
+                if not all(member_ok(a_, 'self_ip_list', dst_pred) for a_ in helper_alternatives(F, facts)):
                     bad.append(sorted((short(k)[:60], r, c) for k, r, c in facts))
             key = '%s:set_source' % fid
             rep.check(r4, bool(sts) and not bad, key if not bad else key + ':unchecked-destination',
@@ -247,12 +252,12 @@ def run(ctx):
     tp = ipaddr('V4', req_getter('get_target_proto_addr'))
     for b in some_points(arp):
         sts = states.get(b, set())
-        bad = [st for st in sts if not member_ok(st[1], 'self_ip_list', tp)]
+        bad = [st for st in sts if not all(member_ok(a_, 'self_ip_list', tp) for a_ in helper_alternatives(F, st[1]))]
         rep.check(r5, bool(sts) and not bad, 'arp::repl:reply-gated', '%d path states; %d without membership of the requested address' % (len(sts), len(bad)), arp.loc(b))
     for b, t in arp.calls(r"MutableArpPacket::<'a>::set_sender_proto_addr$"):
         v = peel(arp.argv(b, 1))
         sts = states.get(b, set())
-        bad = [st for st in sts if not member_ok(st[1], 'self_ip_list', tp)]
+        bad = [st for st in sts if not all(member_ok(a_, 'self_ip_list', tp) for a_ in helper_alternatives(F, st[1]))]
         rep.check(r4, req_getter('get_target_proto_addr')(v) and bool(sts) and not bad, 'arp::repl:sender_proto_addr', 'advertised address = %s; unchecked path states: %d' % (short(v), len(bad)), arp.loc(b))
     nd = F.fn('layer_4::icmpv6::nd_ns_repl')
     rep.saw(nd)
@@ -262,7 +267,7 @@ def run(ctx):
     rep.check(r5, bool(sp), 'nd_ns_repl:has-reply', 'reply points: %d' % len(sp))
     for b in sp:
         sts = states.get(b, set())
-        bad = [st for st in sts if not member_ok(st[1], 'self_ip_list', ta)]
+        bad = [st for st in sts if not all(member_ok(a_, 'self_ip_list', ta) for a_ in helper_alternatives(F, st[1]))]
         rep.check(r5, bool(sts) and not bad, 'nd_ns_repl:reply-gated', '%d path states; %d without membership of the solicited target' % (len(sts), len(bad)), nd.loc(b))
     # advertised target
     for bi, b in enumerate(nd.blocks):
@@ -278,13 +283,24 @@ def run(ctx):
     ic = F.fn('layer_4::icmpv6::repl')
     rep.saw(ic)
     # dst_ip assignments
+    # the variable returned as second tuple component
     defs = []
-    for bi, b in enumerate(ic.blocks):
-        if b['cleanup']:
-            continue
-        for i, s in enumerate(b['stmts']):
-            if not s['lhs']['p'] and ic.locals[s['lhs']['l']]['name'] == 'dst_ip':
-                defs.append((bi, i, ic._through(ic.rvalue(s['rv'], (bi, i)), (bi, i), 0)))
+    addrvar = None
+    for rb in ic.return_blocks():
+        for bi2, blk in enumerate(ic.blocks):
+            for st in blk['stmts']:
+                if not st['lhs']['p'] and st['lhs']['l'] == 0 and st['rv']['k'] == 'agg' and st['rv'].get('agg') == 'tuple' and len(st['rv']['ops']) == 2:
+                    o = st['rv']['ops'][1]
+                    if o['k'] in ('copy', 'move') and not o['place']['p']:
+                        cand = o['place']['l']
+                        # follow one copy
+                        ds = defs_of_local(ic, cand)
+                        if len(ds) == 1 and ic.blocks[ds[0][0]]['stmts'][ds[0][1]]['rv']['k'] == 'use' and ic.blocks[ds[0][0]]['stmts'][ds[0][1]]['rv']['a'].get('k') in ('copy', 'move') and not ic.blocks[ds[0][0]]['stmts'][ds[0][1]]['rv']['a']['place']['p']:
+                            cand = ic.blocks[ds[0][0]]['stmts'][ds[0][1]]['rv']['a']['place']['l']
+                        if len(defs_of_local(ic, cand)) >= 2:
+                            addrvar = cand
+    for bi, i, v in (defs_of_local(ic, addrvar) if addrvar is not None else []):
+        defs.append((bi, i, ic._through(v, (bi, i), 0)))
     some_defs = [(bi, i, v) for bi, i, v in defs if not (isinstance(v, tuple) and v[0] == 'agg' and v[1].endswith('Option::None'))]
     okd = len(some_defs) == 1
     det = 'dst_ip definitions: %s' % [short(v)[:80] for _, _, v in defs]
